@@ -70,9 +70,23 @@ class Fn:
         self.seq = seq
         self.where = where
         self.owner = owner          # file / module, for messages
+        stamp(seq, owner)
 
     def label(self):
         return "%s:%s" % (self.lang, self.name)
+
+
+def stamp(seq, file):
+    for e in seq:
+        e.setdefault("file", file)
+        if e["t"] == "loop":
+            stamp(e["body"], file)
+        elif e["t"] == "switch":
+            for a in e["arms"]:
+                a.setdefault("file", file)
+                stamp(a["seq"], file)
+            if e["default"]:
+                stamp(e["default"]["seq"], file)
 
 
 def opaque_reasons(seq, out=None):
@@ -161,12 +175,19 @@ CLS_OF_WIDTH = {1: "u8", 2: "u16", 4: "u32", 8: "u64", 16: "u128"}
 
 
 class Diff:
-    def __init__(self, kind, path, msg, wline=None, rline=None):
-        self.kind = kind            # width | count | kind | length-prefix | tag-source | tag-unread | tag-variant | class
+    def __init__(self, kind, path, msg, w=None, r=None):
+        """w / r: the writer / reader element (or arm) the difference is at"""
+        self.kind = kind            # width | count | kind | length-prefix | tag-source | tag-unread | tag-variant | ...
         self.path = path
         self.msg = msg
-        self.wline = wline
-        self.rline = rline
+        self.wloc = _loc(w)
+        self.rloc = _loc(r)
+
+
+def _loc(e):
+    if isinstance(e, dict) and e.get("file") and e.get("line"):
+        return "%s:%s" % (e["file"], e["line"])
+    return None
 
 
 class Comparer:
@@ -179,6 +200,7 @@ class Comparer:
         self.covered = set()                 # function keys that took part in some comparison
         self.notes = []                      # observations (reader-only tags ...)
         self.induced = set()                 # pairs reached through corresponding call positions
+        self.ctx = []
 
     # -- pairs
     def pair(self, wk, rk):
@@ -191,7 +213,11 @@ class Comparer:
         self.covered.add(rk)
         W, R = self.fns[wk], self.fns[rk]
         diffs = []
-        self.seq(fresh(W.seq), fresh(R.seq), {}, "", diffs, [wk], [rk], [0])
+        self.ctx.append("%s~%s" % (W.name, R.name))
+        try:
+            self.seq(fresh(W.seq), fresh(R.seq), {}, "", diffs, [wk], [rk], [0])
+        finally:
+            self.ctx.pop()
         self.memo[key] = diffs
         return diffs
 
@@ -221,7 +247,7 @@ class Comparer:
                                       "the writer's operands (%s%s then %s%s) are named like what the reader binds in "
                                       "the opposite order (%s then %s)" % (
                                           pa, pb, a1["cls"], note(a1), a2["cls"], note(a2),
-                                          "/".join(sorted(n1r)), "/".join(sorted(n2r))), a1.get("line"), b1.get("line")))
+                                          "/".join(sorted(n1r)), "/".join(sorted(n2r))), a1, b1))
 
     def _seq(self, ws, rs, idmap, path, diffs, wstack, rstack, budget, matched):
         i = j = 0
@@ -239,8 +265,18 @@ class Comparer:
                     j += 1
                     pos += 1
                     continue
-                # differently factored helpers: compare their contents in place
-                if not self.expand(ws, i, a, wstack, budget, diffs, here, "writer") or \
+                # differently factored helpers: open the wrapper (the side whose body starts with another call)
+                # first so that same-named callees still meet as a pair; otherwise compare the contents in place
+                fa, fb = self.fns.get(a["f"]), self.fns.get(b["f"])
+                a_wraps = bool(fa and fa.seq and fa.seq[0]["t"] == "call")
+                b_wraps = bool(fb and fb.seq and fb.seq[0]["t"] == "call")
+                if b_wraps and not a_wraps:
+                    if not self.expand(rs, j, b, rstack, budget, diffs, here, "reader"):
+                        return
+                elif a_wraps and not b_wraps:
+                    if not self.expand(ws, i, a, wstack, budget, diffs, here, "writer"):
+                        return
+                elif not self.expand(ws, i, a, wstack, budget, diffs, here, "writer") or \
                         not self.expand(rs, j, b, rstack, budget, diffs, here, "reader"):
                     return
                 continue
@@ -255,18 +291,18 @@ class Comparer:
             if a is None or b is None:
                 if a is None:
                     diffs.append(Diff("count", here, "the reader goes on to read %s but the writer has written nothing "
-                                      "more" % describe(b), None, b.get("line")))
+                                      "more" % describe(b), None, b))
                 else:
                     diffs.append(Diff("count", here, "the writer goes on to write %s but the reader reads nothing more"
-                                      % describe(a), a.get("line"), None))
+                                      % describe(a), a, None))
                 return
             if a["t"] == "opaque" or b["t"] == "opaque":
                 diffs.append(Diff("opaque", here, "not summarisable: %s" % (a.get("why") or b.get("why")),
-                                  a.get("line"), b.get("line")))
+                                  a, b))
                 return
             if a["t"] != b["t"]:
                 diffs.append(Diff("kind", here, "the writer produces %s where the reader expects %s"
-                                  % (describe(a), describe(b)), a.get("line"), b.get("line")))
+                                  % (describe(a), describe(b)), a, b))
                 return
             if a["t"] == "prim":
                 idmap[a["id"]] = b["id"]
@@ -274,25 +310,25 @@ class Comparer:
                 if a["w"] != b["w"]:
                     diffs.append(Diff("width", here, "the writer emits %d byte(s) (%s%s) where the reader takes %d "
                                       "byte(s) (%s%s)" % (a["w"], a["cls"], note(a), b["w"], b["cls"], note(b)),
-                                      a.get("line"), b.get("line")))
+                                      a, b))
                     return
                 if (a["cls"] == "bool") != (b["cls"] == "bool"):
                     diffs.append(Diff("class", here, "one side treats this byte as a bool (%s%s), the other as a "
                                       "number (%s%s)" % (a["cls"], note(a), b["cls"], note(b)),
-                                      a.get("line"), b.get("line")))
+                                      a, b))
             elif a["t"] == "loop":
                 if a["len"] is None or b["len"] is None:
                     diffs.append(Diff("opaque", here, "the count of a loop could not be tied to an element (%s)"
                                       % ("writer: %s" % a.get("why") if a["len"] is None else
-                                         "reader: %s" % b.get("why")), a.get("line"), b.get("line")))
+                                         "reader: %s" % b.get("why")), a, b))
                 elif idmap.get(a["len"]) != b["len"]:
                     diffs.append(Diff("length-prefix", here, "the writer counts this loop with a different element "
-                                      "than the one the reader uses as the count", a.get("line"), b.get("line")))
+                                      "than the one the reader uses as the count", a, b))
                 self.seq(a["body"], b["body"], idmap, here + ".body", diffs, wstack, rstack, budget)
             elif a["t"] == "switch":
                 if idmap.get(a["tag"]) != b["tag"]:
                     diffs.append(Diff("tag-source", here, "the writer's variant tag is not the element the reader "
-                                      "dispatches on", a.get("line"), b.get("line")))
+                                      "dispatches on", a, b))
                 self.switch(a, b, idmap, here, diffs, wstack, rstack, budget)
             i += 1
             j += 1
@@ -333,7 +369,7 @@ class Comparer:
                         diffs.append(Diff("tag-unread", sub, "the writer emits tag %s for %s but the reader has no arm "
                                           "for that value%s" % (tagname, arm["variant"] or "this case",
                                                                 " (it falls into the diverging default)" if d else ""),
-                                          arm.get("line"), b.get("line")))
+                                          arm, b))
                     else:
                         self.seq(arm["seq"], d["seq"], dict(idmap), sub, diffs, list(wstack), list(rstack), budget)
                     continue
@@ -341,20 +377,22 @@ class Comparer:
                 if rarm["div"]:
                     diffs.append(Diff("tag-unread", sub, "the writer emits tag %s for %s but the reader's arm for that "
                                       "value diverges" % (tagname, arm["variant"] or "this case"),
-                                      arm.get("line"), rarm.get("line")))
+                                      arm, rarm))
                     continue
                 if arm["variant"] and rarm["variant"] and norm_ident(arm["variant"]) != norm_ident(rarm["variant"]):
                     diffs.append(Diff("tag-variant", sub, "tag %s is written for variant %s but read back as variant "
                                       "%s%s" % (tagname, arm["variant"], rarm["variant"],
                                                 " (reader constant %s)" % rcn if rcn else ""),
-                                      arm.get("line"), rarm.get("line")))
+                                      arm, rarm))
                 if cn and rcn and norm_ident(cn) != norm_ident(rcn):
-                    self.notes.append("%s: value %s is called %s by the writer and %s by the reader" % (sub, v, cn, rcn))
+                    self.notes.append("%s%s: value %s is called %s by the writer and %s by the reader"
+                                      % (self.ctx[-1] if self.ctx else "", sub, v, cn, rcn))
                 self.seq(arm["seq"], rarm["seq"], dict(idmap), sub, diffs, list(wstack), list(rstack), budget)
         extra = sorted(v for v in rmap if v not in written and not rmap[v][0]["div"])
         if extra:
-            self.notes.append("%s: the reader also accepts tag value(s) %s that this writer never emits"
-                              % (here, ", ".join("%s%s" % (v, " (%s)" % rmap[v][1] if rmap[v][1] else "")
+            self.notes.append("%s%s: the reader also accepts tag value(s) %s that this writer never emits"
+                              % (self.ctx[-1] if self.ctx else "", here,
+                                 ", ".join("%s%s" % (v, " (%s)" % rmap[v][1] if rmap[v][1] else "")
                                                  for v in extra[:6])))
 
 
